@@ -26,7 +26,9 @@ FM_LINES = ["a: 1", "a: \"it's...\"", "- x", "# h", "", "  ", "a   ", "***", "{%
             "u2028: a b", "u2029: a b", "nel: a\u0085b", "ff: a\x0cb", "vt: a\x0bb", "fs: a\x1cb\x1dc\x1ed", "cr: a\rb", "nbsp: x", "tab:\tx"]
 CLOSERS = ["---", "--- ", " ---", None]
 BODIES = ["", "prose text   here. Another sentence follows it.", "  indented prose", "# H", "- a\n- b", "```\nx\n```", "{% t %}",
-          "text\n\n---\n\nmore", "it's \"q\"...", "\n\nbody after blanks", "**B**\n===", "[x]: u 't'", "---\nx\n---\nrest"]
+          "text\n\n---\n\nmore", "it's \"q\"...", "\n\nbody after blanks", "**B**\n===", "[x]: u 't'", "---\nx\n---\nrest",
+          # appended later: bodies whose lines share a common indent (the whole-document dedent must act as it does without frontmatter)
+          "  - apples\n  - pears", "    para line\n\n    - item", "  a\n    b\n  c", "\tx\n\ty"]
 OPTS = [dict(width=88, semantic=False, cleanups=False), dict(width=10, semantic=False, cleanups=False),
         dict(width=88, semantic=True, cleanups=True, smartquotes=True, ellipses=True), dict(width=0, semantic=True, cleanups=True, smartquotes=True, ellipses=True),
         dict(width=10, semantic=True, cleanups=False), dict(width=88, semantic=False, cleanups=True, smartquotes=True, ellipses=True, list_spacing="loose"),
@@ -55,6 +57,7 @@ class FM(Space):
 
     def __init__(self, tier):
         q = tier == "quick"
+        self.quick = q
         self.maxn = 2 if q else 3
         self.opts = list(range(len(OPTS))) if q else list(range(len(OPTS)))
         self.line_reps = [0, 1, 4, 6, 8, 12, 14, 18]
@@ -62,7 +65,8 @@ class FM(Space):
 
     def cases(self):
         for n in range(0, self.maxn + 1):
-            pools = [range(len(FM_LINES))] * min(n, 2) + [self.line_reps] * max(0, n - 2)
+            full = 1 if self.quick else 2   # positions that range over the whole line alphabet; the rest use one line per kind
+            pools = [range(len(FM_LINES))] * min(n, full) + [self.line_reps] * max(0, n - full)
             for ls in itertools.product(*pools):
                 for crlf in (False, True):
                     for closer in range(len(CLOSERS)):
